@@ -18,7 +18,9 @@ for (pid, k), r in sorted(rows.items()):
     rd = (k - 1) // 3 + 1
     c = rounds[rd]
     c['total'] += 1
-    if r['demo'] == 0: c['superseded'] += 1; continue
+    try: sup = 'superseded' in json.load(open(os.path.join(os.path.dirname(os.path.abspath(__file__)), '..', 'seeded', pid, str(k), 'meta.json')))
+    except Exception: sup = False
+    if sup: c['superseded'] += 1; continue
     if not r['det']: c['missed'] += 1; c.setdefault('missed_ids', 0); continue
     c['detected'] += 1
     if r['broken'] and r['nf']: c['proof/correspondence only'] += 1
@@ -31,6 +33,6 @@ for rd in sorted(rounds):
     c = rounds[rd]; tot.update(c)
     print(f"| {rd} | {c['total']} | {c['detected']} | {c['proof/correspondence + witness']} | {c['proof/correspondence only']} | {c['monitor witness only']} | {c['missed']} | {c['superseded']} |")
 print(f"| all | {tot['total']} | {tot['detected']} | {tot['proof/correspondence + witness']} | {tot['proof/correspondence only']} | {tot['monitor witness only']} | {tot['missed']} | {tot['superseded']} |")
-missed = [f'{p}/{k}' for (p, k), r in sorted(rows.items()) if r['demo'] != 0 and not r['det']]
+missed = [f'{p}/{k}' for (p, k), r in sorted(rows.items()) if not r['det']]
 print('\nnot reported:', ', '.join(missed) or 'none')
 print('proof/tie only:', ', '.join(f'{p}/{k}' for (p, k), r in sorted(rows.items()) if r['det'] and r['broken'] and r['nf']) or 'none')
